@@ -10,6 +10,9 @@ CLAIMS = {
          "Unbounded proof, for all inputs and iterations, of the contracts of sliceRange (slice geometry, grid contiguity, termination), AppendSampleToRanges (a range is extended only by a sample within one step of its end; a new range starts only after a gap; ranges stay separated by more than a step; other series untouched), ExpandRangesEnd, Overlaps (soundness: merge only when gap <= step and result is the hull; completeness for staggered ranges) and the call-site obligations of Prometheus.RangeQuery (slice size positive and a multiple of the step). The composition of these facts into the end-to-end statement (MergeRanges confluence over arrival orders) is not proved.",
          "x/tools go/ssa translation, solver soundness, integers mathematical, time as one integer timeline (A1-A4), type-based frame for uncontracted callees (A6); MergeRanges fixed point and goroutine/channel plumbing of RangeQuery are outside the proof", "DESIGN.md §7 C13"),
 }
+CLAIMS["C05"] = ("proof", "contract-based deductive verification: WP VCs over go/ssa of the real functions, discharged by z3/cvc5",
+         "Unbounded proof that actionLint returns an error exactly when some report has severity >= --fail-on (loop invariant over the map range in any iteration order; --min-severity and duplicate folding do not occur in the decision), that actionCI returns an error whenever a counted severity reaches the threshold and nil on the final return otherwise, with Summary.CountBySeverity (domain = severities present, counts >= 1), Summary.Dedup (problems untouched), ParseSeverity (table) and the order of the severity constants under contract.",
+         "assumed: urfave/cli turns the action's error into a non-zero exit via main (not under contract); SortReports permutes reports (slices.SortStableFunc, A5); early returns for I/O or flag errors are 'linting did not complete' and carry no obligation", "DESIGN.md §7 C05")
 NA = {
  "C19": "two-run relational property of two recursive traversals over a third-party AST (yaml.Node) quantified over wrappers of arbitrary depth; no contract within reach of the generator can state it (DESIGN.md §8)",
 }
